@@ -471,10 +471,15 @@ class Interp:
             return container.__pyvc_contains__(self, item)
         if not (contains_sym(container) or contains_sym(item)):
             return item in container
+        if isinstance(container, (dict, set, frozenset)) and not contains_sym(item) and not any(is_sym(k) for k in container):
+            return item in container  # membership only looks at the (concrete) keys
         if isinstance(container, (tuple, list)):
             return Or(*[self.eq(x, item) for x in container]) if len(container) else False
-        if isinstance(container, (set, frozenset, dict)) and not contains_sym(container) and isinstance(item, SStr):
-            keys = [k for k in container if isinstance(k, str)]
+        if isinstance(container, (set, frozenset, dict)) and not any(is_sym(k) for k in container) and is_sym(item):
+            if isinstance(item, SStr):
+                keys = [k for k in container if isinstance(k, str)]
+            else:
+                keys = [k for k in container if isinstance(k, (int, float)) and not isinstance(k, bool)]
             return Or(*[item == k for k in keys]) if keys else False
         raise EngineError(f"`in` on {type(container).__name__} with symbolic content")
 
